@@ -12,7 +12,7 @@ import (
 
 func init() {
 	registerProperty(&Property{
-		ID: "C14",
+		ID:          "C14",
 		Explanation: "Decides structural necessary conditions of the capacity accounting: (R1) on every path after a machine is granted by (*machineManager).Offer exactly one Done(procs) is reached with the same procs expression that was requested, and the cancel function is called on the arm that gives up; (R2) taskProcs/health/lastFailure/index/donec are written only by the manager's event loop and its heap methods, taskProcs only as += in the grant arm and -= in the done arm; (R3) schedule returns a machine only behind the fits-test procs <= maxTaskProcs-taskProcs of the returned machine and pushes shelved pairs back; (R4) every health transition in Do is paired with the matching queue move; (R5) request/machine orderings; (R6) the procs clamp precedes Offer and Offer rejects procs<=0; (R7) the local limiter is acquired and released with the same n; (R8) the demand counter is written only as += procs where a request is accepted and -= procs where a task is done or a still-queued request is cancelled, the pending counter only as += count×machprocs where machines are requested and -= machprocs×(started+failed) where the batch reports back, and the count handed to startMachines is (as a linear form, whatever the spelling) min(demand, parallelism limit) − machines held (healthy and on probation) − pending, rounded up to whole machines, behind a guard that establishes a positive shortfall against both bounds. Not decided: the numeric behaviour of that arithmetic over histories, placement optimality, timing.",
 		Rules: []Rule{
 			{ID: "C14-R1", Doc: "every machine granted by Offer is returned by exactly one Done(procs) on every exit; cancel is called when giving up", Run: c14r1},
